@@ -148,13 +148,15 @@ Definition top_update (st : top) (v : bool) (t : tree) (a : bool) : top :=
 (* one iteration of `while (s == 1) and (j <= max_depth)`.
    guard = true: cuqi.experimental.mcmc (refuses NaN / inf candidates); false: cuqi.sampler.
    `(s_prime == 1) and (rand() <= alpha2) and ...` short-circuits: no uniform is drawn if s' = 0 *)
-Definition doubling (guard : bool) (st : top) : prog top :=
-  Flip true (1 # 2) (fun v =>
-    bind (build (if v then p_plus st else p_minus st) v (p_j st)) (fun t =>
-      if t_ok t then
-        Flip false (acc_prob (t_n t) (p_n st)) (fun b =>
-          Ret (top_update st v t (b && (if guard then finite_logd (t_sel t) else true))))
-      else Ret (top_update st v t false))).
+Definition doubling_dir (guard : bool) (st : top) (v : bool) : prog top :=
+  bind (build (if v then p_plus st else p_minus st) v (p_j st)) (fun t =>
+    if t_ok t then
+      Flip false (acc_prob (t_n t) (p_n st)) (fun b =>
+        Ret (top_update st v t (b && (if guard then finite_logd (t_sel t) else true))))
+    else Ret (top_update st v t false)).
+
+(* v = int(2*(rand() < 0.5) - 1) *)
+Definition doubling (guard : bool) (st : top) : prog top := Flip true (1 # 2) (doubling_dir guard st).
 
 Fixpoint doublings (guard : bool) (k : nat) (st : top) : prog top :=
   match k with
